@@ -909,6 +909,10 @@ def rebuild(kind, args):
         return lift(args[0]) ** lift(args[1])
     if kind == "fn:sqrt":
         return Sqrt(args[0])
+    if kind in ("fn:floor", "fn:ceil", "fn:trunc", "fn:int") and len(args) == 1 and isinstance(args[0], E) and args[0].is_const():
+        return lift({"fn:floor": math.floor, "fn:ceil": math.ceil}.get(kind, math.trunc)(args[0].cval()))
+    if kind == "fn:select" and len(args) == 3 and isinstance(args[1], E) and isinstance(args[2], E) and args[1] == args[2]:
+        return args[1]
     if kind.startswith("fn:"):
         return E.atom(Atom(kind, *args))
     raise AlgError(f"cannot rebuild atom of kind {kind}")
@@ -1198,9 +1202,11 @@ def evalnum(e):
     return evalf(e, None, 0, strict=True)
 
 
-def evalf(e, env=None, seed=0, strict=False):
+def evalf(e, env=None, seed=0, strict=False, tie=0.0):
     """Evaluate a normal form at a pseudo-random real point (witness for non-identities).
-    env maps Atom -> float for free atoms; missing atoms get values derived from (seed, atom id)."""
+    env maps Atom -> float for free atoms; missing atoms get values derived from (seed, atom id).
+    Selections are taken by the value of their guard at the point (uninterpreted only if the guard cannot be evaluated);
+    with tie > 0 two compared quantities closer than tie (relative) count as exactly equal: a point ON the boundary of a guard."""
     env = {} if env is None else env
     memo = {}
 
@@ -1217,6 +1223,10 @@ def evalf(e, env=None, seed=0, strict=False):
                 lo, hi = y
                 return val(lo) < val(x) < val(hi)
             xv, yv = val(x), val(y)
+            if xv != xv or yv != yv:
+                raise AlgError("guard on an undefined value")
+            if tie and abs(xv - yv) <= tie * max(1.0, abs(xv), abs(yv)):
+                return op in ("LtE", "GtE", "Eq")
             return {"Lt": xv < yv, "LtE": xv <= yv, "Gt": xv > yv, "GtE": xv >= yv, "Eq": xv == yv, "NotEq": xv != yv}[op]
         if kind == "not":
             return not gval(g[2])
@@ -1289,6 +1299,14 @@ def evalf(e, env=None, seed=0, strict=False):
                 v = math.log(x) if x > 0 else float("nan")
             elif strict and k == "fn:select":
                 v = val(a.args[1]) if gval(a.args[0]) else val(a.args[2])
+            elif k == "fn:select" and len(a.args) == 3:
+                try:
+                    v = val(a.args[1]) if gval(a.args[0]) else val(a.args[2])
+                except AlgError:
+                    v = _prf(a.kind, tuple(argval(g) for g in a.args), seed)
+            elif k in ("fn:floor", "fn:ceil", "fn:trunc", "fn:int") and len(a.args) == 1:
+                x = val(a.args[0])
+                v = float("nan") if x != x or abs(x) == float("inf") else float({"fn:floor": math.floor, "fn:ceil": math.ceil}.get(k, math.trunc)(x))
             elif k == "fn:clip" and len(a.args) == 3:
                 x = val(a.args[0])
                 lo = None if a.args[1] == "none" else val(a.args[1])
@@ -1336,7 +1354,164 @@ def evalf(e, env=None, seed=0, strict=False):
     return val(lift(e))
 
 
-def decide(a, b, budget=1_000_000):
+RANDOMISED: list = []      # one entry per identity accepted by randomised testing (reported in the evidence)
+
+
+def select_guards(e, limit=24):
+    """Structural guards of the selections occurring (deeply) in e: list of ("G", ...) tuples, first come first kept."""
+    out, seen = [], set()
+    for a in sorted(atoms_of(lift(e), deep=True), key=lambda a_: a_.id):
+        if a.kind == "fn:select" and len(a.args) == 3 and isinstance(a.args[0], tuple) and a.args[0] and a.args[0][0] == "G":
+            k = repr(_argkey(a.args[0]))
+            if k not in seen:
+                seen.add(k)
+                out.append(a.args[0])
+                if len(out) >= limit:
+                    break
+    return out
+
+
+def _guard_leaves(g, acc):
+    if isinstance(g, tuple) and g and g[0] == "G":
+        if g[1] == "cmp" and g[2] != "between" and isinstance(g[3], E) and isinstance(g[4], E):
+            acc.append((g[2], g[3], g[4]))
+        else:
+            for x in g[2:]:
+                _guard_leaves(x, acc)
+    return acc
+
+
+_POOL = (0.0, 1.0, 2.0, 3.0, 4.0, -1.0, 0.5, -0.5, 1e-17, 1e3)
+
+
+def guard_worlds(a, b, seed, limit=40):
+    """Evaluation points that the plain pseudo-random point does not reach: for every comparison x op y that guards a selection in a or
+    b, (i) a point ON its boundary x == y, found by solving for one free symbol (secant iteration on the extracted form), and (ii) points
+    where the comparison has the other truth value, searched in a small pool of special values for its free symbols.  Each world is
+    (env, tie): it is a numeric witness point, nothing else."""
+    leaves = []
+    for g in select_guards(lift(a) - lift(b)):
+        _guard_leaves(g, leaves)
+    worlds, seenl = [], set()
+    li = -1
+    for op, x, y in leaves:
+        d = x - y
+        k = d.key()
+        if k in seenl or not d.t:
+            continue
+        seenl.add(k)
+        li += 1
+        syms = sorted((s_ for s_ in atoms_of(d, deep=True) if s_.kind in ("sym", "psym") and not (s_.kind == "psym" and s_.args[0] == "pi")), key=lambda a_: a_.id)[:4]
+        try:
+            base = evalf(d, seed=seed)
+        except AlgError:
+            continue
+        for s_ in syms:
+            v0 = evalf(E.atom(s_), seed=seed)
+            # (i) boundary: solve d(s_) = 0
+            try:
+                x0, x1 = v0, v0 * 1.1 + 0.05
+                f0, f1 = evalf(d, {s_: x0}, seed), evalf(d, {s_: x1}, seed)
+                for _ in range(40):
+                    if f1 != f1 or f0 != f0 or f1 == f0:
+                        break
+                    x0, x1, f0 = x1, x1 - f1 * (x1 - x0) / (f1 - f0), f1
+                    f1 = evalf(d, {s_: x1}, seed)
+                    if abs(f1) < 1e-13:
+                        break
+                if f1 == f1 and abs(f1) < 1e-11 and abs(x1) < 1e6 and not (s_.kind == "psym" and x1 <= 0):
+                    worlds.append(({s_: x1}, 1e-9, f"boundary of {op} guard", li))
+            except (AlgError, ZeroDivisionError, OverflowError):
+                pass
+            # (ii) the other side
+            nflip = 0
+            for pv in _POOL:
+                if s_.kind == "psym" and pv <= 0:
+                    continue
+                try:
+                    dv = evalf(d, {s_: pv}, seed)
+                except (AlgError, ZeroDivisionError, OverflowError):
+                    continue
+                if dv == dv and base == base and ((dv > 0) != (base > 0) or (dv == 0) != (base == 0)):
+                    worlds.append(({s_: pv}, 0.0, f"other side of {op} guard ({pv:g})", li))
+                    nflip += 1
+                    if nflip >= (6 if op in ("Eq", "NotEq") else 2):
+                        break
+            if len(worlds) >= limit:
+                return worlds, li + 1
+    return worlds, li + 1
+
+
+def _guard_equalities(g, truth, out):
+    """sym -> E substitutions implied by guard g having the given truth value (only plain equalities between a bare symbol and an
+    expression that does not contain it; conjunctions that hold; negated disequalities)."""
+    if not (isinstance(g, tuple) and g and g[0] == "G"):
+        return
+    kind = g[1]
+    if kind == "cmp" and g[2] in ("Eq", "NotEq") and isinstance(g[3], E) and isinstance(g[4], E):
+        if (g[2] == "Eq") == truth:
+            for x, y in ((g[3], g[4]), (g[4], g[3])):
+                if x.is_monomial() and len(x.t) == 1:
+                    ((m, c),) = x.t.items()
+                    if len(m) == 1 and m[0][1] == 1 and c == 1 and m[0][0].kind in ("sym", "psym") and m[0][0] not in atoms_of(y, deep=True):
+                        out.setdefault(m[0][0], y)
+                        return
+    elif kind == "not":
+        _guard_equalities(g[2], not truth, out)
+    elif kind == "and" and truth:
+        for x in g[2:]:
+            _guard_equalities(x, True, out)
+    elif kind == "or" and not truth:
+        for x in g[2:]:
+            _guard_equalities(x, False, out)
+
+
+def decide_by_cases(a, b, budget, max_guards=3):
+    """a == b for piecewise forms: on every combination of truth values of the guards of their selections, both sides with each selection
+    replaced by the branch taken (and symbols replaced by what an equality guard that holds says they equal) must be identical.
+    Combinations are not tested for feasibility, so this can only establish equality, never refute."""
+    gs = select_guards(lift(a) - lift(b), limit=max_guards + 1)
+    if not gs or len(gs) > max_guards:
+        return False
+    keys = [repr(_argkey(g)) for g in gs]
+    if tuple(keys) in _CASES_FAILED:
+        return False          # the exact analysis already ran out of budget for this set of guards
+    ok = _decide_by_cases(a, b, budget, gs, keys)
+    if not ok:
+        _CASES_FAILED.add(tuple(keys))
+    return ok
+
+
+_CASES_FAILED: set = set()
+
+
+def _decide_by_cases(a, b, budget, gs, keys):
+    for bits in range(2 ** len(gs)):
+        truth = {k: bool(bits >> i & 1) for i, k in enumerate(keys)}
+        x, y = lift(a), lift(b)
+        for _round in range(4):
+            mp = {}
+            for at in atoms_of(x - y, deep=True):
+                if at.kind == "fn:select" and len(at.args) == 3 and isinstance(at.args[0], tuple):
+                    k = repr(_argkey(at.args[0]))
+                    if k in truth:
+                        mp[at] = at.args[1] if truth[k] else at.args[2]
+            if not mp:
+                break
+            x, y = subst(x, mp), subst(y, mp)
+        eqs = {}
+        for g, k in zip(gs, keys):
+            _guard_equalities(g, truth[k], eqs)
+        if eqs:
+            x, y = subst(x, eqs), subst(y, eqs)
+        if select_guards(x - y, limit=1):
+            return False
+        if decide(x, y, budget, _cases=False, seconds=5)[0] != "equal":
+            return False
+    return True
+
+
+def decide(a, b, budget=1_000_000, _cases=True, seconds=30):
     """Three-valued identity decision.
     1. structural equality of the normal forms (no unfolding)            -> ("equal", None)
     2. numeric witnesses separate the two forms at every trial point     -> ("differ", witness)
@@ -1362,9 +1537,43 @@ def decide(a, b, budget=1_000_000):
         return "differ", [w for x, w in seps if x][0]
     if len(onesided) >= 2 and not any(not x for x, _ in seps):
         return "differ", onesided[0]
+    # piecewise forms: also compare on the other side of, and exactly on, the boundary of every guard of a selection
+    covered, n_leaves, n_base = set(), 0, sum(1 for x, _ in seps if not x)
+    try:
+        for s in (1, 2, 3):
+            ws, n_leaves = guard_worlds(a, b, s)
+            for env_w, tie_w, why_w, li_w in ws:
+                va, vb = evalf(a, dict(env_w), seed=s, tie=tie_w), evalf(b, dict(env_w), seed=s, tie=tie_w)
+                if va != va or vb != vb or abs(va) == float("inf") or abs(vb) == float("inf"):
+                    continue
+                if abs(va - vb) > 1e-6 * max(1.0, abs(va), abs(vb)):
+                    # confirm at a second point of the same kind before calling it a refutation
+                    s2 = s + 10
+                    for env2, tie2, why2, li2 in guard_worlds(a, b, s2)[0]:
+                        if why2 == why_w and set(env2) == set(env_w):
+                            ua, ub = evalf(a, dict(env2), seed=s2, tie=tie2), evalf(b, dict(env2), seed=s2, tie=tie2)
+                            if ua == ua and ub == ub and abs(ua - ub) > 1e-6 * max(1.0, abs(ua), abs(ub)):
+                                return "differ", {"seed": s, "lhs": va, "rhs": vb, "point": why_w,
+                                                  "where": {str(k_.args[0]): v_ for k_, v_ in env_w.items()}}
+                else:
+                    covered.add((li_w, why_w.startswith("boundary")))
+    except (AlgError, ZeroDivisionError, OverflowError):
+        pass
+    if _cases and select_guards(d, limit=1):
+        try:
+            if decide_by_cases(a, b, budget):
+                return "equal", None
+        except (AlgError, ZeroDivisionError, OverflowError):
+            pass
+        # The exact case analysis ran out of budget.  Randomised identity testing (Schwartz-Zippel) over the regions of the guards: the two
+        # piecewise forms agreed at >= 3 generic points and, for EVERY comparison guarding a selection, at points on its other side; they
+        # are accepted as equal, and the obligation is recorded as decided that way.
+        if n_leaves and n_base >= 3 and {li for li, _ in covered} >= set(range(n_leaves)):
+            RANDOMISED.append(1)
+            return "equal", {"by": "randomised identity test over the regions of the guards", "points": n_base + len(covered)}
     saved = list(_WORK)
     saved_deadline = _DEADLINE[0]
-    set_budget(budget, seconds=30)
+    set_budget(budget, seconds=seconds)
     try:
         if is_zero(d):
             return "equal", None
